@@ -6,18 +6,22 @@
 //! obs:   probe res size prot flags hasfile start samefd xflags xdata ptrnull pos d1 d2 [ev*] live
 //! Suite C15xenfind (NOT part of ./check C15) holds the candidate finding "a failed mmap after an
 //! accepted map ioctl leaves the grant mapping in the device".
-use super::c15::{mapped_bytes, memfd};
+use super::c15::{mapped_bytes, maps_perms, memfd};
 use super::c17_xen::{dev_install, dev_live, dev_reset, dev_take, DevEv};
 use crate::tok::n;
 use crate::{util, Rng, Suite, Tier, Tok};
 use std::fs::File;
 use std::os::unix::io::{AsRawFd, FromRawFd};
 use vm_memory::mmap::MmapRegionError;
-use vm_memory::{FileOffset, GuestAddress, GuestRegionMmap, MmapRange, MmapRegion};
+use vm_memory::{
+    Bytes, FileOffset, GuestAddress, GuestMemory, GuestMemoryMmap, GuestRegionMmap, MemoryRegionAddress, MmapRange,
+    MmapRegion,
+};
 
 pub const SUITES: &[Suite] = &[
     Suite { name: "C15xen", gen, exec },
     Suite { name: "C15xenfind", gen: gen_find, exec },
+    Suite { name: "C15xu", gen: gen_u, exec: exec_u },
 ];
 
 fn code(e: &MmapRegionError) -> u64 {
@@ -284,5 +288,255 @@ fn gen_find(_rng: &mut Rng, _tier: Tier, emit: &mut dyn FnMut(Vec<Tok>)) {
             n(mode), n(2 * page), n(1u8), n(64 * page), n(0u8), n(0u8), n(0u8), n(1u8), n(flags), n(0x10 * page), n(2u8),
             n(0u8), n(0u8), n(0u8), n(page), n(1u8),
         ]);
+    }
+}
+
+// ------------------------------------------------------------------------------------------------
+// C15xu: the constructors an ordinary caller of a Xen build reaches for a Xen-UNIX range, in particular
+// FILE-BACKED ones: MmapRange::new_unix(size, Some(file), ..), GuestRegionMmap::from_range(.., Some(file)),
+// GuestMemoryMmap::from_ranges_with_files.
+// case:  mode route size hasfile filelen start hasbase base page huge
+// obs:   probe res size prot flags hasfile start samefd xflags xdata pos d1 d2 coh1 coh2 huge mprot
+//   route 0 MmapRegion::from_range(new_unix(..)) [+ set_hugetlbfs] [+ GuestRegionMmap::new(base)], 1 GuestRegionMmap::from_range,
+//   2 from_ranges_with_files (one range).  coh1/coh2: pwrite -> region / region -> pread (1 equal, 0 different,
+//   2 not examined); mprot: permission column of /proc/self/maps at as_ptr() (r 1, w 2, x 4, shared 8).
+enum BuiltU {
+    Plain(MmapRegion<()>),
+    Guest(GuestRegionMmap<()>),
+    Map(GuestMemoryMmap<()>),
+}
+fn gcode_u(e: &vm_memory::mmap::Error) -> u64 {
+    match e {
+        vm_memory::mmap::Error::InvalidGuestRegion => 6,
+        vm_memory::mmap::Error::MmapRegion(e) => code(e),
+        _ => 14,
+    }
+}
+fn exec_u(case: &[Tok]) -> Vec<Tok> {
+    assert!(case.len() == 10);
+    let route = case[1].u();
+    let size = case[2].u() as usize;
+    let (hasfile, flen, start) = (case[3].u() != 0, case[4].u(), case[5].u());
+    let (hasbase, base) = (case[6].u() != 0, case[7].u());
+    let page = unsafe { libc::sysconf(libc::_SC_PAGESIZE) } as u64;
+    assert!(case[8].u() == page);
+    let huge = case[9].u();
+    assert!(route < 3 && (route == 0 || hasbase) && huge < 3 && (route == 0 || huge == 0));
+
+    let fd = if hasfile { Some(memfd(flen).expect("file length refused")) } else { None };
+    if let Some(fd) = fd {
+        unsafe { libc::lseek(fd, 7, libc::SEEK_SET) };
+    }
+    // independent probe: would the kernel grant a mapping of this range at all?  (shared for a file, private
+    // anonymous otherwise - the kinds of mapping the property speaks about)
+    let probe: u64 = {
+        let fl = if hasfile { libc::MAP_SHARED } else { libc::MAP_ANONYMOUS | libc::MAP_PRIVATE };
+        let p = unsafe {
+            libc::mmap(std::ptr::null_mut(), size, libc::PROT_READ | libc::PROT_WRITE, fl,
+                       fd.unwrap_or(-1), if hasfile { start as libc::off_t } else { 0 })
+        };
+        if p == libc::MAP_FAILED {
+            0
+        } else {
+            unsafe { libc::munmap(p, size) };
+            1
+        }
+    };
+    let mut passed_fd = -1;
+    let fo = fd.map(|fd| {
+        let d = unsafe { libc::dup(fd) };
+        assert!(d >= 0);
+        passed_fd = d;
+        FileOffset::new(unsafe { File::from_raw_fd(d) }, start)
+    });
+    let m0 = mapped_bytes();
+    let built: Option<Result<BuiltU, u64>> = util::catch(|| match route {
+        0 => {
+            let mut range = MmapRange::new_unix(size, fo.clone(), GuestAddress(if hasbase { base } else { 0 }));
+            if huge != 0 {
+                range.set_hugetlbfs(huge == 2);
+            }
+            match MmapRegion::<()>::from_range(range) {
+                Err(e) => Err(code(&e)),
+                Ok(r) => {
+                    if hasbase {
+                        GuestRegionMmap::new(r, GuestAddress(base)).map(BuiltU::Guest).map_err(|e| gcode_u(&e))
+                    } else {
+                        Ok(BuiltU::Plain(r))
+                    }
+                }
+            }
+        }
+        1 => GuestRegionMmap::<()>::from_range(GuestAddress(base), size, fo.clone())
+            .map(BuiltU::Guest)
+            .map_err(|e| gcode_u(&e)),
+        _ => GuestMemoryMmap::<()>::from_ranges_with_files(vec![(GuestAddress(base), size, fo.clone())])
+            .map(BuiltU::Map)
+            .map_err(|e| gcode_u(&e)),
+    });
+    drop(fo);
+    let m1 = mapped_bytes();
+    let mut out: Vec<Tok> = vec![n(probe)];
+    let mut tail = (2u64, 2u64, 0u64, 0u64); // coh1 coh2 huge mprot
+    match &built {
+        None => out.extend([99u64, 0, 0, 0, 0, 0, 0, 0, 0].iter().map(|x| n(*x))),
+        Some(Err(c)) => out.extend([*c, 0, 0, 0, 0, 0, 0, 0, 0].iter().map(|x| n(*x))),
+        Some(Ok(b)) => {
+            let g: Option<&GuestRegionMmap<()>> = match b {
+                BuiltU::Plain(_) => None,
+                BuiltU::Guest(g) => Some(g),
+                BuiltU::Map(m) => Some(m.iter().next().expect("one region")),
+            };
+            let r: &MmapRegion<()> = match b {
+                BuiltU::Plain(r) => r,
+                _ => g.unwrap(),
+            };
+            let (hf, st, same) = match r.file_offset() {
+                Some(f) => (1u64, f.start(), (f.file().as_raw_fd() == passed_fd) as u64),
+                None => (0, 0, 0),
+            };
+            out.extend(
+                [0, r.size() as u64, r.prot() as u32 as u64, r.flags() as u32 as u64, hf, st, same,
+                 r.xen_mmap_flags() as u64, r.xen_mmap_data() as u64]
+                    .iter()
+                    .map(|x| n(*x)),
+            );
+            tail.2 = match r.is_hugetlbfs() {
+                None => 0,
+                Some(false) => 1,
+                Some(true) => 2,
+            };
+            tail.3 = if r.as_ptr().is_null() { 16 } else { maps_perms(r.as_ptr() as u64) };
+            // a file was handed in: byte i of the region is byte start+i of the file, both directions
+            // (examined whatever the region says about itself)
+            if hasfile && r.size() > 0 && r.size() <= (1 << 20) && !r.as_ptr().is_null() && (tail.3 & 3) == 3 {
+                let sz = r.size();
+                let fd = fd.unwrap();
+                let mut rng = Rng::new(size as u64 ^ start ^ 0xC15);
+                let pat = rng.bytes(sz);
+                let w = unsafe { libc::pwrite(fd, pat.as_ptr() as *const libc::c_void, sz, start as libc::off_t) };
+                assert!(w == sz as isize);
+                let raw: Vec<u8> = (0..sz).map(|i| unsafe { std::ptr::read_volatile(r.as_ptr().add(i)) }).collect();
+                let mut via = vec![0u8; sz];
+                let lib_ok = match g {
+                    Some(g) => g.read_slice(&mut via, MemoryRegionAddress(0)).is_ok() && via == pat,
+                    None => true,
+                };
+                tail.0 = (raw == pat && lib_ok) as u64;
+                let pat2 = rng.bytes(sz);
+                match g {
+                    // through the library where there is a guest region, else through the raw pointer
+                    Some(g) => g.write_slice(&pat2, MemoryRegionAddress(0)).expect("write_slice"),
+                    None => {
+                        for i in 0..sz {
+                            unsafe { std::ptr::write_volatile(r.as_ptr().add(i), pat2[i]) };
+                        }
+                    }
+                }
+                let mut back = vec![0u8; sz];
+                let rd = unsafe { libc::pread(fd, back.as_mut_ptr() as *mut libc::c_void, sz, start as libc::off_t) };
+                tail.1 = (rd == sz as isize && back == pat2) as u64;
+            }
+        }
+    }
+    let alive = matches!(built, Some(Ok(_)));
+    drop(built);
+    let m2 = mapped_bytes();
+    let pos = match fd {
+        Some(fd) => unsafe { libc::lseek(fd, 0, libc::SEEK_CUR) as u64 },
+        None => 0,
+    };
+    out.push(n(pos));
+    out.push(n(if alive { m1.wrapping_sub(m0) } else { 0 }));
+    out.push(n(m2.wrapping_sub(m0)));
+    out.extend([n(tail.0), n(tail.1), n(tail.2), n(tail.3)]);
+    if let Some(fd) = fd {
+        unsafe { libc::close(fd) };
+    }
+    out
+}
+
+fn gen_u(rng: &mut Rng, tier: Tier, emit: &mut dyn FnMut(Vec<Tok>)) {
+    let mode = crate::build_mode();
+    let page = unsafe { libc::sysconf(libc::_SC_PAGESIZE) } as u64;
+    let mut case = |route: u64, size: u64, file: Option<(u64, u64)>, base: Option<u64>, huge: u64| {
+        let (hf, fl, st) = match file {
+            Some((l, s)) => (1u64, l, s),
+            None => (0, 0, 0),
+        };
+        let base = if route != 0 && base.is_none() { Some(0x10000) } else { base };
+        let huge = if route == 0 { huge } else { 0 };
+        emit(vec![
+            n(mode), n(route), n(size), n(hf), n(fl), n(st), n(base.is_some() as u64), n(base.unwrap_or(0)),
+            n(page), n(huge),
+        ])
+    };
+    // 1. file ranges around EOF, every route, with / without a guest base, every label
+    let lens = [0u64, 1, 5, page - 1, page, page + 1, 2 * page, 3 * page + 5];
+    for &fl in &lens {
+        for &st in &[0u64, page, 2 * page, 1, page + 7] {
+            for d in -2i64..=2 {
+                let end = fl as i64 + d;
+                if end < st as i64 {
+                    continue;
+                }
+                let size = (end - st as i64) as u64;
+                for route in 0..3u64 {
+                    case(route, size, Some((fl, st)), Some(0x1000), (size + st / page + route) % 3);
+                }
+                case(0, size, Some((fl, st)), None, (size + 1) % 3);
+            }
+        }
+    }
+    // 2. file ranges around the 2^64 overflow boundary
+    for &st in &[u64::MAX, u64::MAX - page + 1, 1 << 63, (1 << 63) - page] {
+        for &size in &[0u64, 1, page, u64::MAX - st, (u64::MAX - st).wrapping_add(1), (u64::MAX - st).wrapping_sub(1)] {
+            for route in 0..3u64 {
+                case(route, size, Some((page, st)), Some(0), 0);
+            }
+        }
+    }
+    // 3. anonymous ranges: sizes the kernel refuses, ordinary sizes, labels
+    for &size in &[0u64, 1, page - 1, page, page + 1, 5 * page, 1 << 30, 1 << 47, u64::MAX] {
+        for route in 0..3u64 {
+            case(route, size, None, Some(0x2000), 0);
+        }
+        for h in 0..3u64 {
+            case(0, size, None, None, h);
+        }
+    }
+    // 4. guest base + size around 2^64, every route, with and without a file
+    for &size in &[0u64, 1, page, 3 * page + 1] {
+        for d in -3i64..=3 {
+            let base = 0u64.wrapping_sub(size).wrapping_add(d as u64);
+            for route in 0..3u64 {
+                case(route, size, None, Some(base), 0);
+                case(route, size, Some((8 * page, page)), Some(base), 2);
+                case(route, size, Some((size, 0)), Some(base), 1);
+            }
+        }
+    }
+    // 5. random requests
+    let nrand = if tier == Tier::Quick { 1200 } else { 40_000 };
+    for _ in 0..nrand {
+        let route = rng.below(3);
+        let fl = *rng.pick(&lens) + if rng.chance(1, 4) { rng.below(3 * page) } else { 0 };
+        let st = match rng.below(4) {
+            0 => 0,
+            1 | 2 => page * rng.below(4),
+            _ => rng.below(2 * page),
+        };
+        let size = match rng.below(4) {
+            0 => rng.below(4 * page),
+            1 | 2 => fl.wrapping_sub(st).wrapping_add(rng.below(5)).wrapping_sub(2) % (1 << 40),
+            _ => page * rng.below(6),
+        };
+        let file = if rng.chance(3, 4) { Some((fl, st)) } else { None };
+        let base = if rng.chance(2, 3) {
+            Some(if rng.bool() { rng.below(1 << 40) } else { 0u64.wrapping_sub(size).wrapping_add(rng.below(5)).wrapping_sub(2) })
+        } else {
+            None
+        };
+        case(route, size, file, base, rng.below(3));
     }
 }
